@@ -56,6 +56,7 @@ type SObs struct {
 	DefErr     []SErr   `json:"default_errors,omitempty"` // top-level error (one, or members if multi-error)
 	MultiErrs  []SErr   `json:"multi_errors,omitempty"`
 	PtrBad     []string `json:"pointer_violations,omitempty"` // direct C12 oracle on the Go side
+	Typed      string   `json:"typed_entry_point,omitempty"` // IsMatchingJSONBoolean/Number/String/Array/Object: verdict unlike IsMatching
 	ModeMix    string   `json:"mode_mix,omitempty"`           // FailFast()+MultiErrors() together: verdict unlike FailFast() alone
 	Leaks      []string `json:"leaks,omitempty"`              // direct C19 oracle on the Go side
 	Reasons    []string `json:"reasons,omitempty"`
@@ -293,6 +294,32 @@ func runSchemaCase(c *SCase) SObs {
 		} else if m {
 			o.IsMatching = 0
 		}
+		if p == nil {
+			// the typed entry points promise the verdict of IsMatching for a value of their type
+			var tm bool
+			typed := true
+			tp := catchPanic(func() {
+				switch x := deepCopyJSON(val).(type) {
+				case bool:
+					tm = s.IsMatchingJSONBoolean(x)
+				case float64:
+					tm = s.IsMatchingJSONNumber(x)
+				case string:
+					tm = s.IsMatchingJSONString(x)
+				case []any:
+					tm = s.IsMatchingJSONArray(x)
+				case map[string]any:
+					tm = s.IsMatchingJSONObject(x)
+				default:
+					typed = false
+				}
+			})
+			if tp != nil {
+				o.Typed = fmt.Sprintf("typed entry point panics: %v", tp)
+			} else if typed && tm != m {
+				o.Typed = fmt.Sprintf("IsMatching %v, IsMatchingJSON<type of the value> %v", m, tm)
+			}
+		}
 	} else {
 		o.IsMatching = o.Failfast
 	}
@@ -417,11 +444,18 @@ func schemaOracles(c *SCase) (compiles, matches, formats []string) {
 // point, everything else is RE2 syntax (written independently of openapi3.intoGoRegexp)
 func ecmaToGo(p string) string {
 	var b strings.Builder
-	isHex := func(c byte) bool { return (c >= '0' && c <= '9') || (c >= 'A' && c <= 'F') }
+	isHex := func(c byte) bool { return (c >= '0' && c <= '9') || (c >= 'A' && c <= 'F') || (c >= 'a' && c <= 'f') }
 	for i := 0; i < len(p); {
-		if p[i] == '\\' && i+5 < len(p)+0 && i+6 <= len(p) && p[i+1] == 'u' && isHex(p[i+2]) && isHex(p[i+3]) && isHex(p[i+4]) && isHex(p[i+5]) {
+		if p[i] == '\\' && i+6 <= len(p) && p[i+1] == 'u' && isHex(p[i+2]) && isHex(p[i+3]) && isHex(p[i+4]) && isHex(p[i+5]) {
 			b.WriteString(`\x{` + p[i+2:i+6] + `}`)
 			i += 6
+			continue
+		}
+		if p[i] == '\\' && i+1 < len(p) {
+			// any other escape, an escaped backslash included, is taken as a whole
+			b.WriteByte(p[i])
+			b.WriteByte(p[i+1])
+			i += 2
 			continue
 		}
 		b.WriteByte(p[i])
@@ -502,6 +536,23 @@ func sDirected() []SCase {
 	s2 := T("string")
 	s2.Pattern = "^[a-z]+$"
 	add(s2, "abc", "ABC", "", "a1")
+	// ECMA 262 code point escapes: upper- and lower-case hex digits, adjacent escapes, and a "u" after
+	// an escaped backslash, which is not an escape
+	for _, pv := range []struct {
+		pat  string
+		vals []any
+	}{
+		{"^h\\u00e9llo$", []any{"héllo", "hello", "h\\u00e9llo"}},
+		{"^h\\u00E9llo$", []any{"héllo", "hello"}},
+		{"^[\\u00e0-\\u00ff]$", []any{"é", "e", "ÿ"}},
+		{"^\\u0061\\u0062$", []any{"ab", "a"}},
+		{"^\\\\u0041$", []any{"\\u0041", "A", "\\x{0041}", "\\A"}},
+		{"^a\\\\\\u0041$", []any{"a\\A", "a\\u0041"}},
+	} {
+		sp := T("string")
+		sp.Pattern = pv.pat
+		add(sp, pv.vals...)
+	}
 	a := T("array")
 	a.MinItems, a.MaxItems, a.Unique = 1, up(2), true
 	a.Items = T("integer")
@@ -787,7 +838,12 @@ func init() {
 		return &openapi3.SchemaError{Value: v, SchemaField: "format"}
 	}))
 	runners["C01"] = schemaRunner("C01", SchemaGenOpts{Hostile: true},
-		"directed keyword/boundary table + seeded random schemas (depth<=3) with values generated towards the schema then mutated; non-trivial = schema has at least one keyword beyond type; distinct by JSON of (schema,value)", nil)
+		"directed keyword/boundary table + seeded random schemas (depth<=3) with values generated towards the schema then mutated; non-trivial = schema has at least one keyword beyond type; distinct by JSON of (schema,value)", func(c *SCase, o *SObs, meta *Meta, idx int) {
+			if o.Typed != "" {
+				meta.GoViolation = append(meta.GoViolation, map[string]any{"signature": "typed-entry-point-differs", "cases": []any{c}, "go_observation": o,
+					"judgement": "the typed entry point for the value's type does not give the verdict of IsMatching: " + o.Typed})
+			}
+		})
 	runners["C12"] = schemaRunner("C12", SchemaGenOpts{Hostile: true, Formats: true},
 		"as C01 plus formats and legal-but-unusual schemas; every returned schema error is checked against the value (pointer + quoted value) on the Go side and against the model's error list", func(c *SCase, o *SObs, meta *Meta, idx int) {
 			if o.ModeMix != "" {
